@@ -239,6 +239,15 @@ func (vc *VC) finishInline(n *Node, nf *Frame, sig *types.Signature) *SV {
 
 func (vc *VC) invoke(f *Frame, n *Node, in ssa.Instruction, recv *SV, m *types.Func, args []*SV) *SV {
 	sig := m.Type().(*types.Signature)
+	if len(recv.Cands) == 0 && !recv.Exact {
+		// closed world: an interface with an unexported method can only be implemented by the
+		// types of the package that declares that method
+		if cw := vc.eng.closedWorld(recv.T); len(cw) > 0 {
+			r2 := *recv
+			r2.Cands, r2.Exact, r2.Guess = cw, true, false
+			recv = &r2
+		}
+	}
 	if !recv.Exact || len(recv.Cands) > 0 {
 		vc.oblige("nil-invoke", "method call on a nil interface"+f.wherei(in), n.Reach, not(eq(recv.C[0], bvLit(tidBits, 0))), "@nopanic")
 	} else {
